@@ -80,7 +80,9 @@ main() {
 uptodate () {
     (set -e
      DIR=$CURRENT
-     [ -d $NEXT ] && DIR=$NEXT
+     # Directory 'next' is only valid, if it is the result of a failed
+     # compile. Otherwise it is a leftover of an interrupted run.
+     [ -d $NEXT ] && [ -f $POLICYDB/failed ] && DIR=$NEXT
      [ -f "$DIR/src/.git/refs/heads/master" ] || return 1
      cd $DIR/src
      rev1=$(git rev-parse HEAD)
@@ -95,6 +97,9 @@ prepare_next() {
 
     # Cleanup leftovers from previous unsuccessful build of this policy.
     rm -rf $NEXT
+    # Marker is set again, if this build fails.
+    # Otherwise an interrupted build would be taken as failed build.
+    rm -f $POLICYDB/failed
 
     # Create temporary directory for new policy.
     mkdir $NEXT
@@ -197,6 +202,8 @@ try_revert() {
     if [ -n "$EMAIL" ] && [ -z $(git config user.email) ]; then
         HASH=$(git log -n 1 --format='format:%H')
         if git revert --no-edit $HASH; then
+            # Directory 'next' no longer holds the failed changeset.
+            rm -f $POLICYDB/failed
             git pull --quiet
             git push --quiet
             git log -n 1 --pretty=short $HASH |
